@@ -155,7 +155,7 @@ func init() {
 	})
 	register(&PropertyDef{
 		ID: "C08", Level: "other",
-		Explanation: "Decides: (V3) options reach every nested parse/constructor unchanged; (V4) RequireValid is honoured by all nine typed parsers (Valid() tested under it, or children parsed through Parse); (V6/E8) representation options: SimplePoint and Point are built from the same parsed position and only without extras; the AllowRects test selects exactly the axis-parallel rectangles — tabulated over all order types of the five positions — and the Rect is spanned by positions 0 and 2; (P1) a SimplePoint geometry is recognised wherever a Point is (Circle recognition); index options influence only accelerator fields, which only Search reads (E3.own), and the index they ask for holds every segment of the series (E9.I5: the build loop runs i = 0 … NumSegments()-1 and no iteration skips the insertion); SimplePoint/Rect cells dispatch like Point/Polygon cells (E1). NOT decided: equality of predicate answers between Rect and its polygon (numerical).",
+		Explanation: "Decides: (V3) options reach every nested parse/constructor unchanged; (V4) RequireValid is honoured by all nine typed parsers (Valid() tested under it, or children parsed through Parse); (V6/E8) representation options: SimplePoint and Point are built from the same parsed position and only without extras; the AllowRects test selects exactly the axis-parallel rectangles — tabulated over all order types of the five positions — and the Rect is spanned by positions 0 and 2; (P1) a SimplePoint geometry is recognised wherever a Point is (Circle recognition), and (E6.circle) a point feature carrying the Circle convention is read back as a Circle under every combination of representation options; index options influence only accelerator fields, which only Search reads (E3.own), and the index they ask for holds every segment of the series (E9.I5: the build loop runs i = 0 … NumSegments()-1 and no iteration skips the insertion); SimplePoint/Rect cells dispatch like Point/Polygon cells (E1). NOT decided: equality of predicate answers between Rect and its polygon (numerical).",
 		Run: func(p *Program, c *Check) {
 			p.ruleOptionPropagation(c)
 			p.ruleRequireValid(c)
@@ -164,6 +164,7 @@ func init() {
 			p.ruleP1(c)
 			p.ruleAccelTables(c, effects(p))
 			p.ruleBuildIndex(c)
+			p.ruleCircleConvention(c)
 			kinds := p.leafKinds(c, "E1")
 			p.ruleA1A2(c, kinds, true, true, "")
 			p.ruleA7(c)
